@@ -14,6 +14,9 @@
 //     builders with failed ends (failed Close, Abandon, injected I/O faults) and several builders open
 //     at once, at the builder API and through the kv flusher / compaction job.
 //   - TestHeldLookups (held_test.go)   FindReaders results of one snapshot held over later lookups.
+//   - TestOffsetWidthLimits / TestStreamHandles (handles_test.go)   tables whose value offsets land on
+//     / around 2^8, 2^16, 2^24 (slot widths of the offsets block), and several StreamWriter handles of
+//     one builder requested and used in generated interleavings.
 //   - FuzzTableReader      native fuzz target (thorough tier): a valid table must read back exactly;
 //     mutated / arbitrary files are informational only (the property says nothing about corrupt files).
 package c15
